@@ -50,6 +50,17 @@ func (x *Exec) assignsArrayNames(fn *ssa.Function, con *FuncContract) (names []s
 		switch {
 		case it == "heap" || it == "everything":
 			return nil, false
+		case strings.HasPrefix(it, "cells(") || strings.HasPrefix(it, "elems(") || strings.HasPrefix(it, "gfall("):
+			if pkg == nil && fn.Origin() != nil && fn.Origin().Pkg != nil {
+				pkg = fn.Origin().Pkg.Pkg
+			}
+			ns, _ := x.wholeArrayItem(pkg, it)
+			names = append(names, ns...)
+		case strings.HasPrefix(it, "reach("):
+			// resolved against the arguments of a particular call (zz_reach.go)
+			if x.curCall == nil {
+				return nil, false
+			}
 		case strings.HasPrefix(it, "all("):
 			i := strings.Index(it, ").")
 			if i < 0 || pkg == nil {
